@@ -662,6 +662,8 @@ Proof.
   destruct (kw_blocks _ _ _ _) as [e|[m data]] eqn:EK.
   { intros H. inversion H; subst. exact (kw_blocks_fuel _ _ _ _ (Nat.lt_succ_diag_r _) _ EK eq_refl). }
   destruct (kw_get m 11); [|discriminate].
+  destruct (kw_get m 15) as [[ix| |dx|nx]|]; try discriminate.
+  destruct ix as [|px]; [|discriminate].
   destruct (depth_at m 10) as [d|].
   - destruct (29 <? d); [discriminate|]. destruct (negb _); [discriminate|]. destruct (_ || _); [discriminate|].
     destruct (kw_get m 2) as [[o| |d'|n']|]; try discriminate.
